@@ -13,7 +13,8 @@ DOMAIN = {
     "u": TEXT,
     "b": [None, False, True],
     "d": [None, dt.datetime(1999, 12, 31, 0, 0, 0, tzinfo=UTC), dt.datetime(2020, 2, 29, 23, 59, 59, tzinfo=UTC),
-          dt.datetime(2099, 1, 1, 12, 30, 0, tzinfo=UTC)],
+          dt.datetime(2099, 1, 1, 12, 30, 0, tzinfo=UTC),
+          dt.datetime(2021, 1, 1, 0, 0, 0, tzinfo=UTC)],          # a Friday in ISO week 53 of 2020: calendar year != ISO week-year
 }
 TYPES = {"n": "I", "m": "I", "x": "R", "s": "S", "u": "S", "b": "B", "d": "T"}
 
